@@ -12,9 +12,10 @@ package i18ntable
 // A key argument is resolved when it is a string literal, a concatenation of
 // resolvable parts, a named constant (same package or pkg.Name), or a local
 // variable all of whose assignments in the enclosing function are resolvable.
-// When it is a parameter of the enclosing plain function, that function becomes
-// a derived sink of the same kind (iterated to a fixpoint), so keys passed
-// through small wrappers are found at the wrappers' call sites.  Everything
+// When it is a parameter of the enclosing function or method (not reassigned in
+// its body), that function becomes a derived sink of the same kind (iterated to
+// a fixpoint; methods are matched by name inside their own package), so keys
+// passed through small wrappers are found at the wrappers' call sites.  Everything
 // else is a dynamic key: outside the property's quantifier ("constant message
 // keys"), counted and listed so the evidence says how many there are.
 //
@@ -40,6 +41,8 @@ type exSite struct {
 	File string `json:"file"`
 	Line int    `json:"line"`
 	Via  string `json:"via"`
+	Dead string `json:"dead,omitempty"` // why this site cannot emit its key (unreferenced variable, private option), else ""
+	pos  token.Pos
 }
 
 type exDyn struct {
@@ -256,17 +259,24 @@ func (x *extractor) sinkOf(f *exFile, call *ast.CallExpr) (exSink, string, bool)
 		return s, fn.Name, ok
 	case *ast.SelectorExpr:
 		if id, ok := fn.X.(*ast.Ident); ok {
-			if d, ok := f.imports[id.Name]; ok && d != "" {
+			if d, ok := f.imports[id.Name]; ok {
+				if d == "" {
+					return exSink{}, "", false
+				}
 				s, ok := x.sinks[exSinkKey{d, fn.Sel.Name}]
 				return s, id.Name + "." + fn.Sel.Name, ok
 			}
 		}
+		// a method of this package that forwards its parameter to a sink (derived; matched by name within the package)
+		s, ok := x.sinks[exSinkKey{f.dir, "." + fn.Sel.Name}]
+		return s, "(method) ." + fn.Sel.Name, ok
 	}
 	return exSink{}, "", false
 }
 
-// all values assigned to the local variable `name` inside fn (nil, false when some assignment is not a constant)
-func (x *extractor) localValues(f *exFile, body *ast.BlockStmt, name string) ([]string, bool) {
+// all values assigned to the local variable `name` inside the function body: (values, every assignment is a
+// constant, the name is assigned/declared in the body at all)
+func (x *extractor) localValues(f *exFile, body *ast.BlockStmt, name string) ([]string, bool, bool) {
 	var vals []string
 	ok, seen := true, false
 	ast.Inspect(body, func(n ast.Node) bool {
@@ -321,7 +331,7 @@ func (x *extractor) localValues(f *exFile, body *ast.BlockStmt, name string) ([]
 		}
 		return true
 	})
-	return vals, ok && seen && len(vals) > 0
+	return vals, ok && seen && len(vals) > 0, seen
 }
 
 func paramIndex(ft *ast.FuncType, name string) int {
@@ -376,26 +386,28 @@ func (x *extractor) run() ([]exSite, []exDyn) {
 						arg := call.Args[sk.arg]
 						pos := x.fset.Position(arg.Pos())
 						if s, ok := x.resolve(f, arg, 0); ok {
-							sites = append(sites, exSite{sk.kind, s, f.rel, pos.Line, via})
+							sites = append(sites, exSite{Kind: sk.kind, Key: s, File: f.rel, Line: pos.Line, Via: via, pos: call.Pos()})
 							return true
 						}
 						if id, isId := arg.(*ast.Ident); isId && isFn && body != nil {
 							if pi := paramIndex(fd.Type, id.Name); pi >= 0 {
-								if _, reassigned := x.localValues(f, body, id.Name); !reassigned {
+								if _, _, reassigned := x.localValues(f, body, id.Name); !reassigned {
 									x.stats.ViaParam++
-									if fd.Recv == nil {
-										k := exSinkKey{f.dir, fd.Name.Name}
-										if _, have := x.sinks[k]; !have {
-											x.sinks[k] = exSink{sk.kind, pi}
-											x.stats.Derived = append(x.stats.Derived, fmt.Sprintf("%s.%s(arg %d) -> %s", f.dir, fd.Name.Name, pi, sk.kind))
-											added = true
-										}
-										return true
+									nm := fd.Name.Name
+									if fd.Recv != nil {
+										nm = "." + nm
 									}
+									k := exSinkKey{f.dir, nm}
+									if _, have := x.sinks[k]; !have {
+										x.sinks[k] = exSink{sk.kind, pi}
+										x.stats.Derived = append(x.stats.Derived, fmt.Sprintf("%s %s(arg %d) -> %s", f.dir, nm, pi, sk.kind))
+										added = true
+									}
+									return true
 								}
-							} else if vals, ok := x.localValues(f, body, id.Name); ok {
+							} else if vals, ok, _ := x.localValues(f, body, id.Name); ok {
 								for _, s := range vals {
-									sites = append(sites, exSite{sk.kind, s, f.rel, pos.Line, via + " (local variable " + id.Name + ")"})
+									sites = append(sites, exSite{Kind: sk.kind, Key: s, File: f.rel, Line: pos.Line, Via: via + " (local variable " + id.Name + ")", pos: call.Pos()})
 								}
 								return true
 							}
@@ -452,6 +464,16 @@ func (x *extractor) run() ([]exSite, []exDyn) {
 						return false
 					}
 					if opt {
+						dead := ""
+						for _, el := range cl.Elts { // help never shows a Private option (internal/cli/cli/help.go)
+							if kv, ok := el.(*ast.KeyValueExpr); ok {
+								if id, ok := kv.Key.(*ast.Ident); ok && id.Name == "Private" {
+									if v, ok := kv.Value.(*ast.Ident); ok && v.Name == "true" {
+										dead = "private option: never shown by help"
+									}
+								}
+							}
+						}
 						for _, el := range cl.Elts {
 							kv, ok := el.(*ast.KeyValueExpr)
 							if !ok {
@@ -461,7 +483,7 @@ func (x *extractor) run() ([]exSite, []exDyn) {
 								pos := x.fset.Position(kv.Value.Pos())
 								if s, ok := x.resolve(f, kv.Value, 0); ok {
 									if s != "" {
-										sites = append(sites, exSite{"Opt", s, f.rel, pos.Line, "cli.Option.Description"})
+										sites = append(sites, exSite{Kind: "Opt", Key: s, File: f.rel, Line: pos.Line, Via: "cli.Option.Description", Dead: dead})
 									}
 								} else {
 									dyn = append(dyn, exDyn{"Opt", f.rel, pos.Line, exprText(x.fset, x.root, kv.Value)})
@@ -478,6 +500,8 @@ func (x *extractor) run() ([]exSite, []exDyn) {
 			walk(f.ast, false)
 		}
 	}
+	// a key that only initialises a package-level variable nobody refers to cannot be emitted
+	x.markUnreferenced(sites)
 	// references to a base sink that are not calls (function values): keys passed through them are invisible here
 	base := baseSinks()
 	for _, pk := range x.pkgs {
@@ -529,6 +553,69 @@ func (x *extractor) run() ([]exSite, []exDyn) {
 	sort.Strings(x.stats.NonCallRefs)
 	x.stats.Resolved, x.stats.Dynamic = len(sites), len(dyn)
 	return sites, dyn
+}
+
+// markUnreferenced: for `var V = <sink call>(...)` at package level, count the uses of V (pkg.V elsewhere, V inside
+// the package, any file that is not a test); none => the site is dead.
+func (x *extractor) markUnreferenced(sites []exSite) {
+	type vkey struct{ dir, name string }
+	byPos := map[token.Pos]vkey{}
+	for _, pk := range x.pkgs {
+		for _, f := range pk.files {
+			for _, d := range f.ast.Decls {
+				gd, ok := d.(*ast.GenDecl)
+				if !ok || gd.Tok != token.VAR {
+					continue
+				}
+				for _, sp := range gd.Specs {
+					vs := sp.(*ast.ValueSpec)
+					for i, nm := range vs.Names {
+						if i < len(vs.Values) {
+							e := vs.Values[i]
+							for { // V = Message("k").SetUser(true) : the innermost call is the sink call
+								c, ok := e.(*ast.CallExpr)
+								if !ok {
+									break
+								}
+								byPos[c.Pos()] = vkey{f.dir, nm.Name}
+								se, ok := c.Fun.(*ast.SelectorExpr)
+								if !ok {
+									break
+								}
+								e = se.X
+							}
+						}
+					}
+				}
+			}
+		}
+	}
+	uses := map[vkey]int{}
+	for _, pk := range x.pkgs {
+		for _, f := range pk.files {
+			ast.Inspect(f.ast, func(n ast.Node) bool {
+				switch v := n.(type) {
+				case *ast.SelectorExpr:
+					if id, ok := v.X.(*ast.Ident); ok {
+						if d, ok := f.imports[id.Name]; ok && d != "" {
+							uses[vkey{d, v.Sel.Name}]++
+							return false
+						}
+					}
+				case *ast.Ident:
+					uses[vkey{f.dir, v.Name}]++
+				}
+				return true
+			})
+		}
+	}
+	for i := range sites {
+		if vk, ok := byPos[sites[i].pos]; ok && sites[i].pos != token.NoPos {
+			if uses[vk] <= 1 { // the declaration itself is one Ident
+				sites[i].Dead = "initialises " + vk.name + ", which nothing refers to"
+			}
+		}
+	}
 }
 
 func isOptTypeRec(f *exFile, t ast.Expr) (bool, bool) {
